@@ -270,8 +270,49 @@ static int do_bthrow(int K, int variant, unsigned seed) {
     return 0;
 }
 
+// mode "qthrow": a push whose element constructor throws leaves an invalid entry at its ticket; wherever that ticket lies (first / last slot of a page, any lane, any page-size
+// class) the queue must stay a FIFO of the other values: sweep the failing position 0..span-1 for element sizes 8 / 24 / 72 / 136 / 264 bytes, unbounded and bounded queue;
+// after the first drain the queue is refilled and drained twice more (a page that was not retired shows up as old values coming out again).
+// output: BADFIFO n (positions at which the values popped differ from the values pushed)  FIRST p
+template <std::size_t PAD> struct TEP {
+    long v = 0; char pad[PAD];
+    TEP() = default; explicit TEP(long x) : v(x) {}
+    TEP(const TEP& o) : v(o.v) { if (o.v == -666) throw 1; }
+    TEP(TEP&& o) : v(o.v) { if (o.v == -666) throw 1; }
+    TEP& operator=(const TEP& o) { v = o.v; return *this; }
+};
+template <class Q, class E> static void qthrow_sweep(int span, long& bad, long& first, int tag) {
+    for (int pos = 0; pos < span; ++pos) {
+        Q q; long next = 0; std::vector<long> want; bool ok = true;
+        for (int round = 0; round < 3 && ok; ++round) {
+            int n = span + 40;
+            for (int i = 0; i < n; ++i) {
+                if (round == 0 && i == pos) { try { E badv(-666); q.push(badv); } catch (int) {} }
+                E e(next); q.push(e); want.push_back(next); next++;
+            }
+            for (std::size_t i = 0; i < want.size(); ++i) { E e; if (!q.try_pop(e) || e.v != want[i]) { ok = false; break; } }
+            E extra; if (ok && q.try_pop(extra)) ok = false;
+            want.clear();
+        }
+        if (!ok) { if (!bad) first = tag * 100000 + pos; bad++; }
+    }
+}
+static int do_qthrow() {
+    long bad = 0, first = -1;
+    qthrow_sweep<tbb::concurrent_queue<TEP<1>>, TEP<1>>(600, bad, first, 1);
+    qthrow_sweep<tbb::concurrent_queue<TEP<16>>, TEP<16>>(300, bad, first, 2);
+    qthrow_sweep<tbb::concurrent_queue<TEP<64>>, TEP<64>>(160, bad, first, 3);
+    qthrow_sweep<tbb::concurrent_queue<TEP<128>>, TEP<128>>(80, bad, first, 4);
+    qthrow_sweep<tbb::concurrent_queue<TEP<256>>, TEP<256>>(40, bad, first, 5);
+    qthrow_sweep<tbb::concurrent_bounded_queue<TEP<1>>, TEP<1>>(600, bad, first, 6);
+    qthrow_sweep<tbb::concurrent_bounded_queue<TEP<128>>, TEP<128>>(80, bad, first, 7);
+    std::printf("BADFIFO %ld FIRST %ld\n", bad, first);
+    return 0;
+}
+
 int main(int argc, char** argv) {
     std::string m = argc > 1 ? argv[1] : "";
+    if (m == "qthrow") return do_qthrow();
     if (m == "bthrow") return do_bthrow(atoi(argv[2]), atoi(argv[3]), (unsigned)atoi(argv[4]));
     if (m == "bmixed") return do_bmixed(atoi(argv[2]), atol(argv[3]), (unsigned)atoi(argv[4]));
     if (m == "qidx") return do_qidx();
